@@ -19,6 +19,8 @@ func init() {
 	})
 }
 
+var blClassForPurge = int64(-1)
+
 func runC21(w *World, r *Report) {
 	defer c21CachedTokenKeepsExpiry(w, r)
 
@@ -284,8 +286,19 @@ func runC21(w *World, r *Report) {
 			}
 
 			cl, isC := constInt(c.Call.Args[0])
+			if !isC || cl != class {
+				return false
+			}
 
-			return isC && cl == class
+			// Delete removes one key. The revocation functions only know the token's
+			// ID, which is the key of the revocation cache and of no other class (the
+			// token cache is keyed by the token text, the others by user name): for
+			// those a Delete by ID removes nothing.
+			if id == "internal/caches.Delete" && class != blClassForPurge {
+				return false
+			}
+
+			return true
 		}
 	}
 
@@ -293,6 +306,7 @@ func runC21(w *World, r *Report) {
 	if cp != nil {
 		if c := lookupConstInt(cp, "BlacklistCache"); c != nil {
 			blClass = *c
+			blClassForPurge = *c
 		}
 	}
 
